@@ -394,8 +394,19 @@ func (c *c15Hist) pickOp() (cmd, variant string, args []string, post func()) {
 
 func (c *c15Hist) emitEvents(n int) {
 	for _, e := range c.rec.Events {
-		if e.Err || (e.Op != "save" && e.Op != "remove") {
+		if e.Op != "save" && e.Op != "remove" {
 			continue
+		}
+		if e.Err {
+			// A save can take effect although it reports an error: the in-memory backend stores the
+			// file and then returns ctx.Err() when the command's context was cancelled meanwhile (a
+			// neighbouring upload hit the crash point). Such a save is an event of the trace.
+			if e.Op != "save" || e.Type == "" {
+				continue
+			}
+			if _, err := c.be.Stat(context.Background(), backend.Handle{Type: ftByName(e.Type), Name: e.Name}); err != nil {
+				continue
+			}
 		}
 		t := "other"
 		switch e.Type {
@@ -483,7 +494,7 @@ func (c *c15Hist) init() {
 }
 
 func streamC15(h *H) {
-	nh := h.N(24, 400)
+	nh := h.N(24, 240)
 	maxOps := 8
 	if h.Thorough() {
 		maxOps = 16
